@@ -1480,8 +1480,8 @@ impl KotoVm {
             }
             TemporaryTuple(RegisterSlice { start, count }) => {
                 let count = *count;
-                if (index.unsigned_abs() as usize) < count {
-                    let index = signed_index_to_unsigned(index, count);
+                let index = signed_index_to_unsigned(index, count);
+                if index < count {
                     self.registers[start + index].clone()
                 } else {
                     Null
